@@ -946,6 +946,17 @@ func r18d(c *core.Ctx) {
 			return inRangeOverField(call, "serverClosers")
 		}},
 	}
+	// a stage may be delegated to a helper of the package that performs it on every one of its paths
+	helperStage := map[string]map[*ssa.Function]bool{}
+	var stagePass map[string]func(in ssa.Instruction) bool
+	delegated := func(key string, in ssa.Instruction) bool {
+		ci2, ok := in.(ssa.CallInstruction)
+		if !ok {
+			return false
+		}
+		h := core.StaticCallee(ci2)
+		return h != nil && helperStage[key][h]
+	}
 	for _, e := range effs {
 		found := false
 		for _, call := range core.Calls(ci) {
@@ -953,8 +964,30 @@ func r18d(c *core.Ctx) {
 				found = true
 			}
 		}
+		if !found {
+			for _, call := range core.Calls(ci) {
+				h := core.StaticCallee(call)
+				if h == nil || h.Pkg != ci.Pkg || h.Blocks == nil || h == ci {
+					continue
+				}
+				has := false
+				for _, hc := range core.Calls(h) {
+					if e.pred(hc) {
+						has = true
+					}
+				}
+				if has {
+					if helperStage[e.key] == nil {
+						helperStage[e.key] = map[*ssa.Function]bool{}
+					}
+					helperStage[e.key][h] = true
+					found = true
+				}
+			}
+		}
 		c.Check(found, "closeImpl-"+e.key, ci.Pos(), ci, "closeImpl "+e.need, "")
 	}
+	_ = stagePass
 	// …on every path: each stage is passed on all paths from entry to return (loops: their header load)
 	stages := []struct {
 		key  string
@@ -976,7 +1009,14 @@ func r18d(c *core.Ctx) {
 		}},
 	}
 	for _, st := range stages {
-		skipped := core.Reach(ci, nil, core.IsReturn, st.pass)
+		st := st
+		// inside a delegating helper the stage must lie on every path as well
+		for h := range helperStage[st.key] {
+			if sk := core.Reach(h, nil, core.IsReturn, st.pass); sk != nil {
+				c.Bad("closeImpl-always-"+st.key+":"+core.FuncName(h), h.Pos(), h, "the helper performs the `"+st.key+"` stage on every path", "the return at "+c.Rel(sk.Pos())+" is reachable without it")
+			}
+		}
+		skipped := core.Reach(ci, nil, core.IsReturn, func(in ssa.Instruction) bool { return st.pass(in) || delegated(st.key, in) })
 		have := ""
 		if skipped != nil {
 			have = "the return at " + c.Rel(skipped.Pos()) + " is reachable without this stage"
